@@ -104,7 +104,7 @@ def _generation_rule(chk, prog):
 
 def _detach_rule(chk, prog):
     rule = "C07-DETACH"
-    chk.rule(rule, "janet_continue_no_check calls janet_fiber_did_resume before run_vm on every path")
+    chk.rule(rule, "janet_continue_no_check calls janet_fiber_did_resume before it runs the fiber or continues its child chain, on every path")
     from jv import flow
     fn = prog.need_func("janet_continue_no_check", "vm.c")
     chk.analysed(fn)
@@ -118,15 +118,18 @@ def _detach_rule(chk, prog):
     cnt = 0
     for b, st in IN.items():
         for n in fn.blocks[b].elems:
-            if n.k == "call" and n.callee == "run_vm":
+            # continuing the child chain IS running this fiber: the child may suspend again and the function
+            # returns from inside that block, so a detach placed below it is skipped on exactly that path
+            if n.k == "call" and n.callee in ("run_vm", "janet_continue", "janet_continue_signal", "janet_continue_no_check"):
                 cnt += 1
                 chk.instance(rule)
                 if "d" in st:
-                    chk.ok(rule, "run_vm call at %s preceded by janet_fiber_did_resume" % n.loc)
+                    chk.ok(rule, "%s call at %s preceded by janet_fiber_did_resume" % (n.callee, n.loc))
                 else:
-                    chk.violation(rule, "vm.c", fn.name, "run_vm", n.loc,
-                                  "the fiber is run without janet_fiber_did_resume on some path: a stream listener "
-                                  "of the previous wait would outlive it")
+                    chk.violation(rule, "vm.c", fn.name, n.callee, n.loc,
+                                  "the fiber (or its child chain) is run by `%s` without janet_fiber_did_resume on some path: a stream "
+                                  "listener of the previous wait would outlive it and a later event on the old stream resumes the fiber "
+                                  "out of its new wait" % n.text()[:40])
             st = transfer(st, n)
     # janet_fiber_did_resume must end the async wait
     fdr = prog.need_func("janet_fiber_did_resume", "ev.c")
@@ -146,7 +149,7 @@ def _detach_rule(chk, prog):
             chk.ok(rule, "janet_async_end clears %s" % fld)
         else:
             chk.violation(rule, "ev.c", ae.name, fld, ae.loc, "janet_async_end does not clear %s" % fld)
-    chk.floor(rule, 5)
+    chk.floor(rule, 6)
 
 
 def _enqueue_rule(chk, prog):
